@@ -86,6 +86,8 @@ def main():
     head = subprocess.run(['git', '-C', '/repo', 'rev-parse', 'HEAD'], stdout=subprocess.PIPE, text=True).stdout.strip()
     sh('git checkout -q --detach %s' % head, cwd=wt)
     meta['base_commit'] = head[:10]
+    meta['verif_commit'] = subprocess.run(['git', '-C', VERIF, 'rev-parse', '--short', 'HEAD'],
+                                          stdout=subprocess.PIPE, text=True).stdout.strip()
     rc, out = build()
     meta['steps']['build_clean'] = rc
     rc, out = demo()
